@@ -279,7 +279,7 @@ def _alarm(signum, frame):
     raise WallTimeout()
 
 
-HANG_LIMIT_S = float(os.environ.get('VERIF_HANG_S', 20))
+HANG_LIMIT_S = float(os.environ.get('VERIF_HANG_S', 45))
 
 
 class Result(object):
